@@ -1,7 +1,7 @@
 (* Storage/DataProofs.v — the data invariant behind C02 *)
 From Coq Require Import Lia ZifyBool ZifyN ZifyNat.
 From HostdBase Require Import Base.
-From HostdStorage Require Import Model Lemmas Proofs Proofs2 DataModel DataLemmas.
+From HostdStorage Require Import Model Lemmas Proofs Proofs2 Proofs3 DataModel DataLemmas.
 
 Arguments stat_inc : simpl never.
 Arguments vol_usage : simpl never.
@@ -30,20 +30,24 @@ Ltac brk :=
   end.
 
 (* [E]: the roots whose loss is excused — the targets of an operator's explicit RemoveSector
-   (empty for the runs of c02_readable_partial, which contain none) *)
+   (empty for the runs of c02_readable_partial, which contain none).
+   A writer between slot commit and data write ("in flight") holds a slot that names its root;
+   what the file holds at that slot is NOT constrained (it may be garbage, zeroes, or — after
+   upload, prune, re-upload into the stale slot — already the very bytes of the sector).  Instead
+   the two clauses about bytes are stated for sectors whose upload is complete: the cache is
+   coherent for them, and a referenced sector is durably written AND not in flight. *)
 Record dinvE (E : N -> Prop) (d : dstate) : Prop := mk_dinv {
   d_inv : inv (md d);
   d_known : forall r v i, slot_at (md d) v i = Some (Some r) -> mem r (known (md d)) = true;
   d_tids : NoDup (map fst (thr d));
-  (* a writer between slot commit and data write holds a slot that names its root but not (yet) its bytes *)
-  d_thr : forall t r v i, alookup t (thr d) = Some (r, v, i) ->
-            slot_at (md d) v i = Some (Some r) /\ content d v i <> r;
+  (* a writer between slot commit and data write holds a slot that names its root *)
+  d_thr : forall t r v i, alookup t (thr d) = Some (r, v, i) -> slot_at (md d) v i = Some (Some r);
   d_troots : forall t t' x x', alookup t (thr d) = Some x -> alookup t' (thr d) = Some x' ->
             fst (fst x) = fst (fst x') -> t = t';
-  (* the cache never holds other bytes for a sector than the ones written for it *)
-  d_cache : forall r c, cget r (cache d) = Some c -> written d r -> c = r;
-  (* every referenced sector is durably written *)
-  d_refs : forall r, refd (md d) r = true -> ~ E r -> durable d r }.
+  (* the cache never holds other bytes for a completely uploaded sector than the ones written for it *)
+  d_cache : forall r c, cget r (cache d) = Some c -> written d r -> in_flight r (thr d) = false -> c = r;
+  (* every referenced sector is durably written, and its upload is complete *)
+  d_refs : forall r, refd (md d) r = true -> ~ E r -> durable d r /\ in_flight r (thr d) = false }.
 Arguments d_inv {E} d _.
 Arguments d_known {E} d _.
 Arguments d_tids {E} d _.
@@ -63,16 +67,24 @@ Lemma touch_files r d : disk (touch r d) = disk d /\ pend (touch r d) = pend d.
 Proof. unfold touch; destruct (mem r (fresh d)); split; reflexivity. Qed.
 
 (** * Steps the theorems are about *)
-(* (a) a store call that adds a reference adds it for a durably written sector — what Write
-       returning nil followed by Sync is meant to guarantee to the RPC handlers;
-   (b) the slot handed to a new sector does not already contain that very sector's bytes
-       (false only for a re-upload into the stale slot of a pruned copy; then migration could
-       move the slot under the writer);
-   (c) no explicit sector deletion, no forced volume removal. *)
+(* the sector's upload is complete: it has a slot whose bytes are its own, on stable storage, and
+   no writer is between the slot commit and the data write for it *)
+Definition settled (d : dstate) (r : N) : Prop := durable d r /\ in_flight r (thr d) = false.
+
+(* (a) a store call that adds a reference adds it for a sector whose upload is complete and
+       durable — what Write returning nil followed by Sync is meant to guarantee to the RPC
+       handlers (and does not, on the "exists" path: known findings);
+   (m) a migration does not move a sector whose upload is in flight (possible only when the slot
+       handed to the writer already holds the very bytes of the sector — upload, prune, re-upload
+       into the stale slot — because migrateSector verifies the root of what it reads; see
+       migrate_in_flight_refuted for why it cannot be dropped);
+   (c) no explicit sector deletion, no forced volume removal.
+   The former clause "(b) a freshly reserved slot does not already contain the new sector's
+   bytes" is gone: it is violated by ordinary executions and was an artefact of the invariant. *)
 Definition step_ok (d : dstate) (o : dop) : Prop :=
   match o with
-  | DMeta m => forall r, refd (md (fst (dstep d o))) r = true -> refd (md d) r = true \/ durable d r
-  | DReserve t r (Some (v, i)) => content d v i <> r
+  | DMeta m => forall r, refd (md (fst (dstep d o))) r = true -> refd (md d) r = true \/ settled d r
+  | DMigrate v _ calls => forall t r j to, alookup t (thr d) = Some (r, v, j) -> ~ In (j, to, 0%N) calls
   | DRemoveSector _ => False
   | DRemoveT _ force => force = false
   | _ => True
@@ -220,6 +232,44 @@ Proof.
   destruct (t =? k')%N; cbn in *; [now right|]. destruct Hin; [now left|right; auto].
 Qed.
 
+Lemma in_alookup {V} t (l : list (N * V)) x : NoDup (map fst l) -> In (t, x) l -> alookup t l = Some x.
+Proof.
+  induction l as [|[k y] l IH]; cbn; [tauto|]. intros Hnd; inversion Hnd as [|? ? Hni Hnd']; subst.
+  intros [H|H].
+  - injection H as -> ->. now rewrite N.eqb_refl.
+  - destruct (t =? k)%N eqn:E; [|auto]. apply N.eqb_eq in E; subst k. exfalso. apply Hni.
+    change t with (fst (t, x)). now apply in_map.
+Qed.
+
+(** * Uploads in flight *)
+Lemma in_flight_cons r t q v i (l : list (N * (N * N * N))) :
+  in_flight r ((t, (q, v, i)) :: l) = (q =? r)%N || in_flight r l.
+Proof. reflexivity. Qed.
+
+Lemma in_flight_true r (l : list (N * (N * N * N))) :
+  NoDup (map fst l) -> in_flight r l = true -> exists t v i, alookup t l = Some (r, v, i).
+Proof.
+  intros ND H. unfold in_flight in H. apply existsb_exists in H as [[t [[q v] i]] [Hin Hq]].
+  cbn in Hq. apply N.eqb_eq in Hq; subst q. exists t, v, i. now apply in_alookup.
+Qed.
+
+Lemma in_flight_aremove_false r t (l : list (N * (N * N * N))) :
+  in_flight r l = false -> in_flight r (aremove t l) = false.
+Proof.
+  induction l as [|[k [[q v] i]] l IH]; cbn [aremove]; [auto|].
+  rewrite in_flight_cons. intros H. apply Bool.orb_false_iff in H as [H1 H2].
+  destruct (t =? k)%N; [exact H2|]. rewrite in_flight_cons, H1. cbn. auto.
+Qed.
+
+Lemma in_flight_aremove_other (l : list (N * (N * N * N))) t r v i q :
+  alookup t l = Some (r, v, i) -> q <> r -> in_flight q (aremove t l) = in_flight q l.
+Proof.
+  induction l as [|[k [[r' v'] i']] l IH]; cbn [aremove alookup]; [discriminate|].
+  intros H Hq. rewrite in_flight_cons. destruct (t =? k)%N.
+  - injection H as -> _ _. replace (r =? q)%N with false; [reflexivity|]. symmetry. apply N.eqb_neq. congruence.
+  - rewrite in_flight_cons. f_equal. now apply IH.
+Qed.
+
 (** * Transfer of written / durable between states *)
 Lemma written_transfer d d' r :
   (forall v i, slot_at (md d) v i = Some (Some r) -> slot_at (md d') v i = Some (Some r) /\ content d' v i = content d v i) ->
@@ -265,26 +315,31 @@ Lemma rollback_facts r v i s s' o :
   inv s -> slot_at s v i = Some (Some r) -> rollback r v i s = (s', o) ->
   inv s' /\ same_refs s s' /\ known s' = known s /\
   (forall w j q, slot_at s' w j = Some (Some q) -> slot_at s w j = Some (Some q)) /\
-  (forall w j q, slot_at s w j = Some (Some q) -> q <> r -> slot_at s' w j = Some (Some q)).
+  (forall w j q, slot_at s w j = Some (Some q) -> q <> r -> slot_at s' w j = Some (Some q)) /\
+  (forall w j, slot_at s' w j <> Some (Some r)).
 Proof.
   intros I S R. pose proof (inv_rollback r v i s I) as I'. rewrite R in I'. cbn in I'.
   unfold rollback in R.
-  assert (Hsame : s' = s -> inv s' /\ same_refs s s' /\ known s' = known s /\
-     (forall w j q, slot_at s' w j = Some (Some q) -> slot_at s w j = Some (Some q)) /\
-     (forall w j q, slot_at s w j = Some (Some q) -> q <> r -> slot_at s' w j = Some (Some q))).
-  { intros ->. split; [exact I|]. split; [split; reflexivity|]. split; [reflexivity|]. split; auto. }
+  pose proof S as S0.
   unfold slot_at in S. unfold slots_of in R.
   destruct (vget v (vols s)) as [vl|] eqn:G; [|discriminate]. rewrite S in R.
   rewrite N.eqb_refl in R.
-  destruct (vol_usage v (-1) (set_slot v i None s)) as [s2| |] eqn:U; injection R as <- _; auto.
+  (* under the metadata invariant the usage update of an occupied slot cannot fail *)
+  destruct (occupied_used s v vl i r I G S) as [H1 H2].
+  assert (G0 : vget v (vols (set_slot v i None s)) = Some (set_slots vl (sset i None (vslots vl)))).
+  { unfold set_slot; cbn. now rewrite (vget_vupd_same v _ _ vl) by (auto; reflexivity). }
+  destruct (vol_usage_some v (-1) _ _ G0) as [s2 U]; [cbn; lia|unfold set_slot; cbn; lia|].
+  rewrite U in R. injection R as <- _.
   apply usage_set_slot in U as [vl' [G' [_ [Hv [Hm [Hk [Ht Hc]]]]]]].
   rewrite G in G'; injection G' as <-.
   pose proof (slot_at_wr s s2 v i None (-1) vl G Hv) as SA. rewrite S in SA.
-  split; [exact I'|]. split; [split; assumption|]. split; [exact Hk|]. split.
+  split; [exact I'|]. split; [split; assumption|]. split; [exact Hk|]. split; [|split].
   - intros w j q H. rewrite SA in H. destruct ((w =? v)%N && (j =? i)%N); [discriminate|exact H].
   - intros w j q H Hq. rewrite SA. destruct ((w =? v)%N && (j =? i)%N) eqn:E; [|exact H].
     apply Bool.andb_true_iff in E as [E1 E2]. apply N.eqb_eq in E1, E2; subst.
     unfold slot_at in H. rewrite G, S in H. congruence.
+  - intros w j H. rewrite SA in H. destruct ((w =? v)%N && (j =? i)%N) eqn:E; [discriminate|].
+    destruct (slot_injective s w j v i r I H S0) as [-> ->]. now rewrite !N.eqb_refl in E.
 Qed.
 
 Lemma content_kset d v i c dk w j :
@@ -326,6 +381,10 @@ Proof.
   intros H. apply alookup_in in H. unfold in_flight. apply existsb_exists.
   exists (t, (r, v, i)); split; [exact H|cbn; apply N.eqb_refl].
 Qed.
+
+Lemma in_flight_false r (l : list (N * (N * N * N))) t q v i :
+  in_flight r l = false -> alookup t l = Some (q, v, i) -> q <> r.
+Proof. intros H A ->. now rewrite (in_flight_spec r l t v i A) in H. Qed.
 
 (** * DShrinkT, DRemoveT *)
 Lemma sget_filter_lt n j (l : slots) :
@@ -470,9 +529,8 @@ Lemma dinv_same d d' :
 Proof.
   intros Em Et Ec Hc Hd [I1 I2 I3 I4 I4' I5 I6].
   constructor; rewrite ?Em, ?Et, ?Ec; auto.
-  - intros t r v i H. destruct (I4 t r v i H) as [S C]. split; [exact S|]. now rewrite Hc.
   - intros r c H [v [i [S C]]]. apply (I5 r c H). exists v, i. rewrite Em in S. split; [exact S|]. now rewrite <- Hc.
-  - intros r H HE. destruct (I6 r H HE) as [v [i [S [C D]]]]. exists v, i. rewrite Em. split; [exact S|].
+  - intros r H HE. destruct (I6 r H HE) as [[v [i [S [C D]]]] NF]. split; [|exact NF]. exists v, i. rewrite Em. split; [exact S|].
     rewrite Hc. split; [exact C|]. destruct (Hd v i) as [E|E]; rewrite E; auto.
 Qed.
 
@@ -494,36 +552,37 @@ Proof.
   - rewrite Em. now apply inv_step.
   - intros r v i H. apply SS in H. rewrite Em. apply meta_known; eauto.
   - exact I3.
-  - intros t r v i H. destruct (I4 t r v i H) as [S C]. split; [now apply SS|exact C].
+  - intros t r v i H. apply SS. eapply I4; eauto.
   - exact I4'.
   - intros r c H W. apply (I5 r c H). destruct W as [v [i [S C]]]. exists v, i. split; [now apply SS|exact C].
-  - intros r H HE. destruct (OK r H) as [H'|H'].
-    + eapply durable_transfer; [|apply (I6 r H' HE)]. intros v i S. split; [now apply SS|auto].
-    + eapply durable_transfer; [|exact H']. intros v i S. split; [now apply SS|auto].
+  - intros r H HE. destruct (OK r H) as [H'|[H' NF]].
+    + destruct (I6 r H' HE) as [Du NF]. split; [|exact NF].
+      eapply durable_transfer; [|exact Du]. intros v i S. split; [now apply SS|auto].
+    + split; [|exact NF]. eapply durable_transfer; [|exact H']. intros v i S. split; [now apply SS|auto].
 Qed.
 
-Lemma dinv_reserve d t r loc : dinv d -> step_ok d (DReserve t r loc) -> dinv (fst (dstep d (DReserve t r loc))).
+Lemma dinv_reserve d t r loc : dinv d -> dinv (fst (dstep d (DReserve t r loc))).
 Proof.
-  intros I OK. cbn [dstep]. unfold dreserve.
+  intros I. cbn [dstep]. unfold dreserve.
   destruct (alookup t (thr d)) eqn:T; [exact I|].
   destruct (reserve r loc (md d)) as [| |s1 v i|o|] eqn:R; cbn [fst]; try exact I.
   - (* exists *) apply dinv_touch. destruct I as [I1 I2 I3 I4 I4' I5 I6]. constructor; cbn.
     + now apply inv_add_known.
     + intros q v i H. unfold slot_at in H. rewrite add_known_vols in H. apply add_known_mem. eapply I2; eauto.
     + exact I3.
-    + intros t' q v i H. destruct (I4 t' q v i H) as [S C]. split; auto. unfold slot_at. now rewrite add_known_vols.
+    + intros t' q v i H. unfold slot_at. rewrite add_known_vols. eapply I4; eauto.
     + exact I4'.
     + intros q c H [v [i [S C]]]. apply (I5 q c H). exists v, i; split; auto.
       cbn [md with_md] in S. unfold slot_at in *. now rewrite add_known_vols in S.
     + intros q H HE. unfold refd in H. rewrite add_known_cons, add_known_temps in H.
-      eapply durable_transfer; [|apply (I6 q H HE)]. intros v i S. split; auto.
+      destruct (I6 q H HE) as [Du NF]. split; [|exact NF].
+      eapply durable_transfer; [|exact Du]. intros v i S. split; auto.
       cbn [md with_md]. unfold slot_at. now rewrite add_known_vols.
-  - (* placed *)
+  - (* placed: whatever the slot's file contents are *)
     apply dinv_touch.
     destruct I as [I1 I2 I3 I4 I4' I5 I6].
     destruct (reserve_placed r loc (md d) s1 v i I1 R) as [J1 [F [-> [V [vl [G [S Hv]]]]]]].
     destruct (reserve_facts r (Some (v, i)) (md d) s1 v i I1 R) as [SR [K1 K2]].
-    cbn in OK.
     pose proof (slot_at_wr (md d) s1 v i (Some r) 1 vl G Hv) as SA. rewrite S in SA.
     assert (Hold : forall w j q, slot_at (md d) w j = Some (Some q) -> slot_at s1 w j = Some (Some q)).
     { intros w j q H. rewrite SA. destruct ((w =? v)%N && (j =? i)%N) eqn:E; [|exact H].
@@ -533,26 +592,33 @@ Proof.
                      (w = v /\ j = i /\ q = r) \/ slot_at (md d) w j = Some (Some q)).
     { intros w j q H. rewrite SA in H. destruct ((w =? v)%N && (j =? i)%N) eqn:E; [|now right].
       apply Bool.andb_true_iff in E as [E1 E2]. apply N.eqb_eq in E1, E2; subst. injection H as <-. now left. }
-    constructor; cbn.
+    assert (Hnoslot : forall w j, slot_at (md d) w j <> Some (Some r)).
+    { intros w j H. exact (slot_at_none_vfind (md d) r I1 F w j H). }
+    constructor; cbn [md thr cache with_md with_thr].
     + exact J1.
     + intros q w j H. apply Hnew in H as [[-> [-> ->]]|H]; [exact K1|]. apply K2. eapply I2; eauto.
-    + constructor; [now apply alookup_none_notin|exact I3].
-    + intros t' q w j H. destruct (t' =? t)%N eqn:E.
-      * injection H as <- <- <-. split; [|exact OK]. rewrite SA, !N.eqb_refl. reflexivity.
-      * destruct (I4 t' q w j H) as [S' C]. split; [now apply Hold|exact C].
-    + intros t1 t2 x1 x2 H1 H2 E.
+    + cbn. constructor; [now apply alookup_none_notin|exact I3].
+    + intros t' q w j H. cbn [alookup] in H. destruct (t' =? t)%N eqn:E.
+      * injection H as <- <- <-. rewrite SA, !N.eqb_refl. reflexivity.
+      * apply Hold. eapply I4; eauto.
+    + intros t1 t2 x1 x2 H1 H2 E. cbn [alookup] in H1, H2.
       assert (Hnot : forall t' x', alookup t' (thr d) = Some x' -> fst (fst x') <> r).
-      { intros t' [[q w] j] H' Heq. cbn in Heq; subst q. destruct (I4 t' r w j H') as [S' _].
-        exact (slot_at_none_vfind (md d) r I1 F w j S'). }
+      { intros t' [[q w] j] H' Heq. cbn in Heq; subst q. exact (Hnoslot w j (I4 t' r w j H')). }
       destruct (t1 =? t)%N eqn:E1; destruct (t2 =? t)%N eqn:E2.
       * apply N.eqb_eq in E1, E2; congruence.
       * injection H1 as <-. cbn in E. exfalso. eapply Hnot; eauto.
       * injection H2 as <-. cbn in E. exfalso. eapply Hnot; eauto.
       * eapply I4'; eauto.
-    + intros q c H [w [j [S' C]]]. apply (I5 q c H).
-      apply Hnew in S' as [[-> [-> ->]]|S']; [contradiction|]. exists w, j; auto.
-    + intros q H HE. rewrite (refd_same _ _ q SR) in H.
-      eapply durable_transfer; [|apply (I6 q H HE)]. intros w j S'. split; [now apply Hold|auto].
+    + intros q c H [w [j [S' C]]] NF. rewrite in_flight_cons in NF.
+      apply Bool.orb_false_iff in NF as [Hq NF]. apply N.eqb_neq in Hq.
+      apply (I5 q c H); [|exact NF].
+      apply Hnew in S' as [[_ [_ ->]]|S']; [congruence|]. exists w, j; auto.
+    + intros q H HE. rewrite (refd_same _ _ q SR) in H. destruct (I6 q H HE) as [Du NF].
+      assert (Hq : q <> r). { intros ->. destruct Du as [w [j [S' _]]]. exact (Hnoslot w j S'). }
+      split.
+      * eapply durable_transfer; [|exact Du]. intros w j S'. split; [now apply Hold|auto].
+      * rewrite in_flight_cons, NF. replace (r =? q)%N with false; [reflexivity|].
+        symmetry. apply N.eqb_neq. congruence.
 Qed.
 
 Lemma dinv_write d t ok : dinv d -> dinv (fst (dstep d (DWrite t ok))).
@@ -560,68 +626,69 @@ Proof.
   intros I. cbn [dstep]. unfold dwrite.
   destruct (alookup t (thr d)) as [[[r v] i]|] eqn:T; [|exact I].
   destruct I as [I1 I2 I3 I4 I4' I5 I6].
-  destruct (I4 t r v i T) as [St Ct].
+  pose proof (I4 t r v i T) as St.
+  pose proof (in_flight_spec r _ t v i T) as IFr.
   assert (Hothers : forall t' q w j, alookup t' (aremove t (thr d)) = Some (q, w, j) ->
             alookup t' (thr d) = Some (q, w, j) /\ q <> r /\ ~ (w = v /\ j = i)).
   { intros t' q w j H. apply alookup_aremove in H as [Hne H]; [|exact I3]. split; [exact H|].
     assert (Hq : q <> r).
     { intros ->. apply Hne. eapply (I4' t' t); eauto. }
-    split; [exact Hq|]. intros [-> ->]. destruct (I4 t' q v i H) as [S' _]. congruence. }
+    split; [exact Hq|]. intros [-> ->]. pose proof (I4 t' q v i H) as S'. congruence. }
+  assert (NFr : in_flight r (aremove t (thr d)) = false).
+  { destruct (in_flight r (aremove t (thr d))) eqn:E; [|reflexivity].
+    apply in_flight_true in E as [t' [w [j E]]]; [|now apply aremove_nodup].
+    destruct (Hothers t' r w j E) as [_ [Hq _]]. congruence. }
   destruct (ok && is_some (vget v (vols (md d)))) eqn:OK; cbn [fst].
   - (* data written *)
-    assert (Hc : forall w j, ~ (w = v /\ j = i) ->
-              content (with_files (with_thr d (aremove t (thr d))) (disk d) (kset v i r (pend d))) w j = content d w j).
-    { intros w j H. unfold content; cbn. destruct ((w =? v)%N && (j =? i)%N) eqn:E; [|reflexivity].
-      apply Bool.andb_true_iff in E as [E1 E2]. apply N.eqb_eq in E1, E2. tauto. }
-    constructor; cbn.
+    constructor; cbn [md thr cache with_md with_thr with_files with_cache with_changed].
     + exact I1.
     + exact I2.
     + now apply aremove_nodup.
-    + intros t' q w j H. destruct (Hothers t' q w j H) as [H' [Hq Hs]]. destruct (I4 t' q w j H') as [S' C'].
-      split; [exact S'|]. unfold content in *; cbn.
-      destruct ((w =? v)%N && (j =? i)%N) eqn:E; [|exact C'].
-      apply Bool.andb_true_iff in E as [E1 E2]. apply N.eqb_eq in E1, E2. tauto.
+    + intros t' q w j H. destruct (Hothers t' q w j H) as [H' _]. eapply I4; eauto.
     + intros t1 t2 x1 x2 H1 H2 E. apply alookup_aremove in H1 as [_ H1]; [|exact I3].
       apply alookup_aremove in H2 as [_ H2]; [|exact I3]. eapply I4'; eauto.
-    + intros q c H [w [j [S' C']]]. apply cget_cadd in H as [[-> ->]|[Hq H]]; [reflexivity|].
-      apply (I5 q c H). exists w, j. split; [exact S'|].
+    + intros q c H [w [j [S' C']]] NF. apply cget_cadd in H as [[-> ->]|[Hq H]]; [reflexivity|].
+      rewrite (in_flight_aremove_other _ t r v i q T Hq) in NF.
+      apply (I5 q c H); [|exact NF]. exists w, j. split; [exact S'|].
       cbn in S'. unfold content in *; cbn in C'.
       destruct ((w =? v)%N && (j =? i)%N) eqn:E; [|exact C'].
       apply Bool.andb_true_iff in E as [E1 E2]. apply N.eqb_eq in E1, E2; subst. congruence.
-    + intros q H HE. destruct (I6 q H HE) as [w [j [S' [C' D']]]]. exists w, j. cbn.
+    + intros q H HE. destruct (I6 q H HE) as [[w [j [S' [C' D']]]] NF].
+      assert (Hq : q <> r) by (intros ->; congruence).
+      split; [|now apply in_flight_aremove_false]. exists w, j. cbn.
       assert (Hne : ~ (w = v /\ j = i)). { intros [-> ->]. congruence. }
       split; [exact S'|]. split; [|exact D'].
       unfold content in *; cbn. destruct ((w =? v)%N && (j =? i)%N) eqn:E; [|exact C'].
       apply Bool.andb_true_iff in E as [E1 E2]. apply N.eqb_eq in E1, E2. tauto.
   - (* failure: rollback *)
     destruct (rollback r v i (md d)) as [m o] eqn:R. cbn [fst].
-    destruct (rollback_facts r v i (md d) m o I1 St R) as [J1 [SR [K [Hsub Hkeep]]]].
-    constructor; cbn.
+    destruct (rollback_facts r v i (md d) m o I1 St R) as [J1 [SR [K [Hsub [Hkeep Hgone]]]]].
+    constructor; cbn [md thr cache with_md with_thr with_files with_cache with_changed].
     + exact J1.
     + intros q w j H. rewrite K. eapply I2. eapply Hsub; eauto.
     + now apply aremove_nodup.
-    + intros t' q w j H. destruct (Hothers t' q w j H) as [H' [Hq Hs]]. destruct (I4 t' q w j H') as [S' C'].
-      split; [now apply Hkeep|exact C'].
+    + intros t' q w j H. destruct (Hothers t' q w j H) as [H' [Hq Hs]]. apply Hkeep; [|exact Hq]. eapply I4; eauto.
     + intros t1 t2 x1 x2 H1 H2 E. apply alookup_aremove in H1 as [_ H1]; [|exact I3].
       apply alookup_aremove in H2 as [_ H2]; [|exact I3]. eapply I4'; eauto.
-    + intros q c H [w [j [S' C']]]. apply (I5 q c H). exists w, j. split; [eapply Hsub; eauto|exact C'].
-    + intros q H HE. rewrite (refd_same _ _ q SR) in H. destruct (I6 q H HE) as [w [j [S' [C' D']]]].
-      exists w, j. cbn. split; [|auto]. apply Hkeep; [exact S'|].
-      intros ->. destruct (slot_injective (md d) w j v i r I1 S' St) as [-> ->]. congruence.
+    + intros q c H [w [j [S' C']]] NF.
+      assert (Hq : q <> r) by (intros ->; exact (Hgone w j S')).
+      rewrite (in_flight_aremove_other _ t r v i q T Hq) in NF.
+      apply (I5 q c H); [|exact NF]. exists w, j. split; [eapply Hsub; eauto|exact C'].
+    + intros q H HE. rewrite (refd_same _ _ q SR) in H. destruct (I6 q H HE) as [[w [j [S' [C' D']]]] NF].
+      assert (Hq : q <> r) by (intros ->; congruence).
+      split; [|now apply in_flight_aremove_false].
+      exists w, j. cbn. split; [|auto]. apply Hkeep; [exact S'|exact Hq].
 Qed.
 
 Lemma dinv_sync d : dinv d -> dinv (dsync d).
 Proof.
   intros [I1 I2 I3 I4 I4' I5 I6]. unfold dsync.
   constructor; cbn; rewrite ?fold_sync_md, ?fold_sync_thr, ?fold_sync_cache; auto.
-  - intros t r v i H. destruct (I4 t r v i H) as [S C]. split; [exact S|].
-    unfold content in *; cbn. fold (content (fold_left (fun a w => sync_vol w a) (changed d) d) v i).
-    now rewrite fold_sync_content.
   - intros r c H [v [i [S C]]]. apply (I5 r c H). exists v, i. cbn in S. rewrite fold_sync_md in S.
     split; [exact S|]. unfold content in C; cbn in C.
     fold (content (fold_left (fun a w => sync_vol w a) (changed d) d) v i) in C.
     now rewrite fold_sync_content in C.
-  - intros r H HE. destruct (I6 r H HE) as [v [i [S [C D]]]]. exists v, i. cbn. rewrite fold_sync_md.
+  - intros r H HE. destruct (I6 r H HE) as [[v [i [S [C D]]]] NF]. split; [|exact NF]. exists v, i. cbn. rewrite fold_sync_md.
     split; [exact S|]. split.
     + unfold content; cbn. fold (content (fold_left (fun a w => sync_vol w a) (changed d) d) v i).
       now rewrite fold_sync_content.
@@ -630,7 +697,7 @@ Proof.
 Qed.
 
 Lemma dinv_cache d c' :
-  dinv d -> (forall r c, cget r c' = Some c -> written d r -> c = r) -> dinv (with_cache d c').
+  dinv d -> (forall r c, cget r c' = Some c -> written d r -> in_flight r (thr d) = false -> c = r) -> dinv (with_cache d c').
 Proof.
   intros [I1 I2 I3 I4 I4' I5 I6] H. constructor; cbn; auto.
 Qed.
@@ -639,14 +706,14 @@ Lemma dinv_read d r fail : dinv d -> dinv (fst (dstep d (DRead r fail))).
 Proof.
   intros I. cbn [dstep]. unfold dread.
   destruct (cget r (cache d)) as [c|] eqn:Hc; cbn [fst].
-  - apply dinv_cache; [exact I|]. intros q x H W. apply (d_cache d I q x); [|exact W].
+  - apply dinv_cache; [exact I|]. intros q x H W NF. apply (d_cache d I q x); [|exact W|exact NF].
     cbn in H. destruct (q =? r)%N eqn:E.
     + apply N.eqb_eq in E; subst. injection H as <-. exact Hc.
     + apply N.eqb_neq in E. now rewrite cget_cdel_other in H.
   - destruct (locate r (md d)) as [[v i]|] eqn:L; [|exact I].
     destruct fail; cbn [fst]; [now apply dinv_touch|]. apply dinv_touch.
-    apply dinv_cache; [exact I|]. intros q x H W.
-    apply cget_cadd in H as [[-> ->]|[Hq H]]; [|apply (d_cache d I q x H W)].
+    apply dinv_cache; [exact I|]. intros q x H W NF.
+    apply cget_cadd in H as [[-> ->]|[Hq H]]; [|apply (d_cache d I q x H W NF)].
     destruct W as [w [j [S C]]]. apply locate_slot in L; [|apply (d_inv d I)].
     destruct (slot_injective (md d) w j v i r (d_inv d I) S L) as [-> ->]. exact C.
 Qed.
@@ -654,14 +721,14 @@ Qed.
 Lemma dinv_resize_cache d n : dinv d -> dinv (fst (dstep d (DResizeCache n))).
 Proof.
   intros [I1 I2 I3 I4 I4' I5 I6]. cbn. constructor; cbn; auto.
-  intros r c H W. apply cget_firstn in H. apply (I5 r c H). exact W.
+  intros r c H W NF. apply cget_firstn in H. apply (I5 r c H W NF).
 Qed.
 
 Lemma dinv_crash d : dinv d -> dinv (dcrash d).
 Proof.
   intros [I1 I2 I3 I4 I4' I5 I6]. constructor; cbn; auto; try discriminate.
   - constructor.
-  - intros r H HE. destruct (I6 r H HE) as [v [i [S [C D]]]]. exists v, i. cbn.
+  - intros r H HE. destruct (I6 r H HE) as [[v [i [S [C D]]]] _]. split; [|reflexivity]. exists v, i. cbn.
     split; [exact S|]. unfold content, dcontent in *; cbn. auto.
 Qed.
 
@@ -670,7 +737,7 @@ Proof.
   intros I. cbn [dstep]. destruct (thr d) eqn:T; [|exact I]. cbn [fst].
   destruct I as [I1 I2 I3 I4 I4' I5 I6]. constructor; cbn; auto; try discriminate.
   - constructor.
-  - intros r H HE. destruct (I6 r H HE) as [v [i [S [C D]]]]. exists v, i. cbn.
+  - intros r H HE. destruct (I6 r H HE) as [[v [i [S [C D]]]] _]. split; [|reflexivity]. exists v, i. cbn.
     split; [exact S|]. unfold content, dcontent in *; cbn. rewrite kget_app.
     destruct (kget v i (pend d)); auto.
 Qed.
@@ -688,14 +755,14 @@ Proof.
     destruct (slot_at (md d) w j) as [[q'|]|] eqn:S; try discriminate.
     destruct (f q'); [|discriminate]. injection H as <-. eapply I2; eauto.
   - exact I3.
-  - intros t q w j H. destruct (I4 t q w j H) as [S C]. split; [|exact C].
+  - intros t q w j H. pose proof (I4 t q w j H) as S.
     rewrite slot_at_pruned, S. unfold f. rewrite (in_flight_spec q _ t w j H), Bool.orb_true_r. reflexivity.
   - exact I4'.
-  - intros q c H [w [j [S C]]]. apply (I5 q c H). exists w, j. split; [|exact C].
+  - intros q c H [w [j [S C]]] NF. apply (I5 q c H); [|exact NF]. exists w, j. split; [|exact C].
     cbn [md with_md] in S. rewrite slot_at_pruned in S. destruct (slot_at (md d) w j) as [[q'|]|]; try discriminate.
     destruct (f q'); [exact S|discriminate].
   - intros q H HE. assert (H' : refd (md d) q = true) by exact H.
-    destruct (I6 q H' HE) as [w [j [S [C D]]]]. exists w, j. split; [|auto].
+    destruct (I6 q H' HE) as [[w [j [S [C D]]]] NF]. split; [|exact NF]. exists w, j. split; [|auto].
     cbn [md with_md]. rewrite slot_at_pruned, S. unfold f. rewrite H'. reflexivity.
 Qed.
 
@@ -709,13 +776,13 @@ Proof.
   - exact J1.
   - intros q w j H. rewrite K. eapply I2. eapply Hsub; eauto.
   - exact I3.
-  - intros t q w j H. destruct (I4 t q w j H) as [S C]. destruct (Hkeep w j q S) as [S' Hw].
-    split; [exact S'|]. now rewrite (proj1 (content_ktrunc d v n m w j Hw)).
+  - intros t q w j H. pose proof (I4 t q w j H) as S. now destruct (Hkeep w j q S).
   - exact I4'.
-  - intros q c H [w [j [S C]]]. apply (I5 q c H). exists w, j.
+  - intros q c H [w [j [S C]]] NF. apply (I5 q c H); [|exact NF]. exists w, j.
     pose proof (Hsub w j q S) as S0. destruct (Hkeep w j q S0) as [_ Hw].
     split; [exact S0|]. now rewrite (proj1 (content_ktrunc d v n m w j Hw)) in C.
-  - intros q H HE. rewrite (refd_same _ _ q SR) in H. destruct (I6 q H HE) as [w [j [S [C D]]]].
+  - intros q H HE. rewrite (refd_same _ _ q SR) in H. destruct (I6 q H HE) as [[w [j [S [C D]]]] NF].
+    split; [|exact NF].
     destruct (Hkeep w j q S) as [S' Hw]. exists w, j. split; [exact S'|].
     destruct (content_ktrunc d v n m w j Hw) as [E1 E2]. rewrite E1, E2. auto.
 Qed.
@@ -735,20 +802,20 @@ Proof.
   - exact J1.
   - intros q w j H. rewrite K. eapply I2. eapply Hsub; eauto.
   - exact I3.
-  - intros t q w j H. destruct (I4 t q w j H) as [S C]. destruct (Hkeep w j q S) as [S' Hw].
-    split; [exact S'|]. now rewrite (proj1 (Hc w j Hw)).
+  - intros t q w j H. pose proof (I4 t q w j H) as S. now destruct (Hkeep w j q S).
   - exact I4'.
-  - intros q c H [w [j [S C]]]. apply (I5 q c H). exists w, j.
+  - intros q c H [w [j [S C]]] NF. apply (I5 q c H); [|exact NF]. exists w, j.
     pose proof (Hsub w j q S) as S0. destruct (Hkeep w j q S0) as [_ Hw].
     split; [exact S0|]. now rewrite (proj1 (Hc w j Hw)) in C.
-  - intros q H HE. rewrite (refd_same _ _ q SR) in H. destruct (I6 q H HE) as [w [j [S [C D]]]].
+  - intros q H HE. rewrite (refd_same _ _ q SR) in H. destruct (I6 q H HE) as [[w [j [S [C D]]]] NF].
+    split; [|exact NF].
     destruct (Hkeep w j q S) as [S' Hw]. exists w, j. split; [exact S'|].
     destruct (Hc w j Hw) as [E1 E2]. rewrite E1, E2. auto.
 Qed.
 
-(* one successful migrateSector + swap *)
+(* one successful migrateSector + swap, of a sector whose upload is complete *)
 Lemma dinv_move d v idx r to m vl tl :
-  dinv d ->
+  dinv d -> in_flight r (thr d) = false ->
   vget v (vols (md d)) = Some vl -> sget idx (vslots vl) = Some (Some r) ->
   vget (fst to) (vols (md d)) = Some tl -> sget (snd to) (vslots tl) = Some None ->
   content d v idx = r ->
@@ -756,7 +823,7 @@ Lemma dinv_move d v idx r to m vl tl :
   let d1 := with_cache d (cadd (csize d) r r (cache d)) in
   dinv (with_md (sync_vol (fst to) (with_files d1 (disk d1) (kset (fst to) (snd to) r (pend d1)))) m).
 Proof.
-  intros I G S Gt St Cr M d1.
+  intros I NFr G S Gt St Cr M d1.
   pose proof (mig_move_slots v idx r to (md d) m vl tl G S Gt St M) as SA.
   destruct (mig_move_vols v idx r to (md d) m M) as [_ [Hc [Ht Hk]]].
   pose proof (inv_mig_move v idx r to (md d) m vl tl (d_inv d I) G S Gt St M) as J1.
@@ -791,58 +858,70 @@ Proof.
   - exact J1.
   - intros q w j H. rewrite Hk. apply Hnew in H as [[-> _]|[_ H]]; eapply I2; eauto.
   - exact I3.
-  - intros t q w j H. cbn in H. destruct (I4 t q w j H) as [S' C'].
-    assert (Hq : q <> r).
-    { intros ->. destruct (slot_injective (md d) w j v idx r I1 S' Sfrom) as [-> ->]. congruence. }
-    destruct (Hold w j q S' Hq) as [S2 C2]. split; [exact S2|].
-    change (content d2 w j <> q). now rewrite C2.
+  - intros t q w j H. cbn in H. pose proof (I4 t q w j H) as S'.
+    assert (Hq : q <> r) by (eapply in_flight_false; eauto).
+    now destruct (Hold w j q S' Hq).
   - exact I4'.
-  - intros q c H [w [j [S' C']]]. change (content d2 w j = q) in C'. cbn in H.
+  - intros q c H [w [j [S' C']]] NF. change (content d2 w j = q) in C'. cbn in H, NF.
     apply cget_cadd in H as [[-> ->]|[Hq H]]; [reflexivity|].
-    apply (I5 q c H). apply Hnew in S' as [[-> _]|[_ S']]; [congruence|].
+    apply (I5 q c H); [|exact NF]. apply Hnew in S' as [[-> _]|[_ S']]; [congruence|].
     exists w, j. split; [exact S'|]. destruct (Hold w j q S' Hq) as [_ C2]. congruence.
   - intros q H HE. unfold refd in H. cbn in H. rewrite Hc, Ht in H. fold (refd (md d) q) in H.
-    destruct (I6 q H HE) as [w [j [S' [C' D']]]].
+    destruct (I6 q H HE) as [[w [j [S' [C' D']]]] NF].
     destruct (N.eq_dec q r) as [->|Hq].
-    + exists (fst to), (snd to). split; [rewrite SA, !N.eqb_refl; reflexivity|].
+    + split; [|exact NFr]. exists (fst to), (snd to). split; [rewrite SA, !N.eqb_refl; reflexivity|].
       change (content d2 (fst to) (snd to) = r /\ dcontent d2 (fst to) (snd to) = r).
       rewrite Dn, Cn, !N.eqb_refl. cbn. auto.
-    + destruct (Hold w j q S' Hq) as [S2 C2]. exists w, j. split; [exact S2|].
+    + split; [|exact NF]. destruct (Hold w j q S' Hq) as [S2 C2]. exists w, j. split; [exact S2|].
       change (content d2 w j = q /\ dcontent d2 w j = q). rewrite Dn, C2.
       destruct (w =? fst to)%N; auto.
 Qed.
 
 Lemma dinv_migrate fuel : forall v start index calls mig fail d,
-  dinv d -> dinv (fst (dmigrate fuel v start index calls mig fail d)).
+  dinv d ->
+  (forall t r j to, alookup t (thr d) = Some (r, v, j) -> ~ In (j, to, 0%N) calls) ->
+  dinv (fst (dmigrate fuel v start index calls mig fail d)).
 Proof.
-  induction fuel as [|f IH]; intros v start index calls mig fail d I; cbn [dmigrate]; [exact I|].
+  induction fuel as [|f IH]; intros v start index calls mig fail d I NM; cbn [dmigrate]; [exact I|].
   destruct (next_occ index (slots_of v (md d)) None) as [[idx r]|] eqn:Nx.
   2:{ destruct calls; exact I. }
   destruct (mig_has_target (md d) v start); cbn [negb].
   2:{ destruct calls; exact I. }
   destruct calls as [|[[fidx to] code] rest]; [exact I|].
+  assert (NM' : forall d', thr d' = thr d ->
+             forall t r j to, alookup t (thr d') = Some (r, v, j) -> ~ In (j, to, 0%N) rest).
+  { intros d' Et t q j to' H Hin. rewrite Et in H. apply (NM t q j to' H). now right. }
   destruct ((fidx =? idx)%N && mig_valid_target (md d) v start to) eqn:V; cbn [negb]; [|exact I].
-  apply Bool.andb_true_iff in V as [_ V].
-  destruct (code =? 1)%N; [apply IH; exact I|].
+  apply Bool.andb_true_iff in V as [Vi V]. apply N.eqb_eq in Vi; subst fidx.
+  destruct (code =? 1)%N; [apply IH; [exact I|now apply NM']|].
+  destruct (code =? 4)%N; [destruct (in_flight r (thr d)); [apply IH; [exact I|now apply NM']|exact I]|].
   apply next_occ_in in Nx as [Nx|Nx]; [discriminate|].
   destruct (slots_of_get v (md d) idx r (d_inv d I) Nx) as [vl [G S]].
   destruct (mig_valid_slot (md d) v start to V) as [tl [Gt St]].
   assert (Sfrom : slot_at (md d) v idx = Some (Some r)) by (unfold slot_at; now rewrite G).
   (* the cache entry added by readLocation is coherent *)
   assert (I1 : dinv (with_cache d (cadd (csize d) r (content d v idx) (cache d)))).
-  { apply dinv_cache; [exact I|]. intros q x H W.
-    apply cget_cadd in H as [[-> ->]|[Hq H]]; [|apply (d_cache d I q x H W)].
+  { apply dinv_cache; [exact I|]. intros q x H W NF.
+    apply cget_cadd in H as [[-> ->]|[Hq H]]; [|apply (d_cache d I q x H W NF)].
     destruct W as [w [j [S' C']]].
     destruct (slot_injective (md d) w j v idx r (d_inv d I) S' Sfrom) as [-> ->]. exact C'. }
   destruct (code =? 2)%N.
-  { destruct (content d v idx =? r)%N; [exact I|]. apply IH; exact I1. }
+  { destruct (content d v idx =? r)%N; [exact I|]. apply IH; [exact I1|now apply NM']. }
   destruct (content d v idx =? r)%N eqn:Cr; cbn [negb]; [|exact I]. apply N.eqb_eq in Cr.
-  destruct (code =? 3)%N; [apply IH; exact I1|].
-  destruct (code =? 0)%N; cbn [negb]; [|exact I].
+  destruct (code =? 3)%N; [apply IH; [exact I1|now apply NM']|].
+  destruct (code =? 0)%N eqn:C0; cbn [negb]; [|exact I]. apply N.eqb_eq in C0; subst code.
   cbn [md with_cache].
   destruct (mig_move v idx r to (md d)) as [m| |] eqn:M; try exact I1.
-  apply IH. rewrite Cr. cbn [disk pend with_cache csize cache].
-  exact (dinv_move d v idx r to m vl tl I G S Gt St Cr M).
+  (* the moved sector is not in flight: its slot would be the source of this very call *)
+  assert (NFr : in_flight r (thr d) = false).
+  { destruct (in_flight r (thr d)) eqn:E; [|reflexivity].
+    apply in_flight_true in E as [t [w [j E]]]; [|apply (d_tids d I)].
+    pose proof (d_thr d I t r w j E) as S'.
+    destruct (slot_injective (md d) w j v idx r (d_inv d I) S' Sfrom) as [-> ->].
+    exfalso. apply (NM t r idx to E). now left. }
+  apply IH; [|now apply NM'].
+  rewrite Cr. cbn [disk pend with_cache csize cache].
+  exact (dinv_move d v idx r to m vl tl I NFr G S Gt St Cr M).
 Qed.
 
 (** * The pieces of Sync, DAge *)
@@ -890,7 +969,7 @@ Proof.
   - now apply dinv_sync_pieces.
   - now apply dinv_sync_pieces.
   - now apply dinv_read.
-  - cbn [dstep]. now apply dinv_migrate.
+  - cbn [dstep]. apply dinv_migrate; [exact I|exact OK].
   - now apply dinv_shrink.
   - now apply dinv_remove.
   - destruct OK.
